@@ -840,6 +840,27 @@ pub fn run(t: &[&str]) -> String {
                     }
                 }
             }
+            // an index taken apart and put together again through its mutators (sections detached and re-attached, url
+            // and file re-set) is the same index: same view, same bytes (C01 / C03 on maps reached through the API)
+            if let DecodedMap::Index(ix0) = &d1 {
+                let mut ix = ix0.clone();
+                let file = ix.get_file().map(str::to_owned);
+                ix.set_file(file.as_deref());
+                for i in 0..ix.get_section_count() {
+                    if let Some(sec) = ix.get_section_mut(i) {
+                        let url = sec.get_url().map(str::to_owned);
+                        let inner = sec.get_sourcemap_mut().map(|m| m.clone());
+                        sec.set_sourcemap(None);
+                        sec.set_url(None);
+                        sec.set_url(url.as_deref());
+                        sec.set_sourcemap(inner);
+                    }
+                }
+                let dm = DecodedMap::Index(ix);
+                if obs(&dm) != obs(&d1) || encode(&dm).ok() != Some(b1.clone()) {
+                    return "err mutator-rebuilt-index-differs".into();
+                }
+            }
             format!("ok {} {} stable={} reader={} fb={}", obs(&d1), o2, (b1 == b2) as u8, (d2r == o2) as u8, fb)
         }
         "doc.enc" => {
